@@ -510,8 +510,35 @@ def certTable : List (String × CertAttrs) := [
   ("wronghost", ⟨"A", ["other.test", "10.9.9.9"], false⟩),
   ("untrusted", ⟨"B", ["server.test", "localhost", "127.0.0.1"], false⟩),
   ("expired", ⟨"A", ["server.test", "localhost", "127.0.0.1"], true⟩),
+  -- validity boundary: signed by the harness at the moment of use (go/harness/c05_pki.go);
+  -- `expired` = outside the validity period at that moment
+  ("exp1m", ⟨"A", ["server.test", "localhost", "127.0.0.1"], true⟩),      -- NotAfter = now - 60 s
+  ("exp1s", ⟨"A", ["server.test", "localhost", "127.0.0.1"], true⟩),      -- NotAfter = now - 1 s
+  ("notyet", ⟨"A", ["server.test", "localhost", "127.0.0.1"], true⟩),     -- NotBefore = now + 120 s
+  ("fresh", ⟨"A", ["server.test", "localhost", "127.0.0.1"], false⟩),     -- now - 60 s … now + 120 s
   ("cgood", ⟨"A", [], false⟩),
-  ("cforeign", ⟨"B", [], false⟩)]
+  ("cforeign", ⟨"B", [], false⟩),
+  ("cexpired", ⟨"A", [], true⟩), ("cexp1m", ⟨"A", [], true⟩), ("cexp1s", ⟨"A", [], true⟩),
+  ("cnotyet", ⟨"A", [], true⟩), ("cfresh", ⟨"A", [], false⟩)]
+
+/-- the sites of the code that set a verification-affecting field of a `tls.Config`, and where
+    the model mirrors each (compared with the regenerated `SA.Gen.tlsVerifFieldSites` in
+    `C05_verification_field_inventory`).  The model's `TlsCfg` has exactly the fields named here;
+    `Time`, `VerifyPeerCertificate`, `VerifyConnection`, `GetConfigForClient` are set nowhere, so the
+    config handed to crypto/tls verifies with the wall clock and the library's own procedure. -/
+def modelledVerifFieldSites : List (String × String × String) := [
+  ("internal/client/upstream/input_output.go", "InputOutput.Connect", "InsecureSkipVerify"),  -- forcesInsecure / kindWrites
+  ("internal/client/upstream/socket.go", "Socket.Connect", "ServerName"),                     -- socketTlsName / kindWrites
+  ("internal/socketace/client.go", "ClientConnection.startTls", "ServerName"),                -- startTlsName
+  ("internal/util/cert/cert.go", "ClientConfig.GetTlsConfig", "InsecureSkipVerify"),          -- clientGetTlsConfig
+  ("internal/util/cert/cert.go", "Config.addCaCertificates", "ClientCAs"),                    -- addCaCertificates
+  ("internal/util/cert/cert.go", "Config.addCaCertificates", "RootCAs"),                      -- addCaCertificates
+  ("internal/util/cert/cert.go", "ServerConfig.GetTlsConfig", "ClientAuth")]                  -- serverGetTlsConfig
+
+def serverCertClasses : List String :=
+  ["good", "nameonly", "wronghost", "untrusted", "expired", "exp1m", "exp1s", "notyet", "fresh"]
+def clientCertClasses : List String :=
+  ["none", "good", "foreign", "expired", "exp1m", "exp1s", "notyet", "fresh"]
 
 def refX509 : X509 where
   chains pool c :=
@@ -624,6 +651,9 @@ def resStr : Res TlsCfg → String
     "ok certs=" ++ toString c.certs.length ++ " root=" ++ poolStr c.rootCAs ++ " cca=" ++ poolStr c.clientCAs
       ++ " isv=" ++ (if c.insecureSkipVerify then "1" else "0") ++ " auth=" ++ toString c.clientAuth.code
       ++ " name=" ++ nameHex c.serverName
+      -- no clock of its own, no verification callback, no per-connection config: the model has no
+      -- such field because no site in the code sets one (Props: C05_verification_field_inventory)
+      ++ " hooks=-"
 
 def bytesToName (bs : List Nat) : Option Name := (String.fromUTF8? ⟨bs.toArray.map (·.toUInt8)⟩).map (·.toList)
 
@@ -678,8 +708,8 @@ def handleAuthmatrix (toks : List String) : String :=
       let (k, noHost) ← parseKind carrier
       let ins ← parseBit ins
       let sreq ← parseBit sreq
-      if !(["good", "nameonly", "wronghost", "untrusted", "expired"].contains scert) then none
-      if !(["none", "good", "foreign"].contains ccert) then none
+      if !(serverCertClasses.contains scert) then none
+      if !(clientCertClasses.contains ccert) then none
       if !(["A", "-"].contains cca) || !(["A", "-"].contains sca) then none
       if noHost != (hostname == "-") then none
       if (carrier == "tcp" || carrier == "tcp+tls" || carrier == "udp" || carrier == "ws" || carrier == "wss") && !(hostname == "localhost" || hostname == "127.0.0.1") then none
@@ -702,7 +732,7 @@ def parseAttempt (sreq : Bool) (sca : String) (tok : String) : Option Attempt :=
   | [carrier, hostname, scert] => do
     if !(["pipe", "tcp", "tcp+tls", "stdin+tls", "wss"].contains carrier) then none
     let (k, noHost) ← parseKind carrier
-    if !(["dead", "good", "nameonly", "iponly", "wronghost", "untrusted", "expired"].contains scert) then none
+    if !(("dead" :: "iponly" :: serverCertClasses).contains scert) then none
     if noHost != (hostname == "-") then none
     if (carrier == "tcp" || carrier == "tcp+tls" || carrier == "wss") && !(hostname == "localhost" || hostname == "127.0.0.1") then none
     if carrier == "pipe" && (hostname.isEmpty || hostname.toList.any (fun c => c == ':' || c == '/' || c == '[' || c == ']')) then none
@@ -728,7 +758,7 @@ def handleTlshist (toks : List String) : String :=
       let failover ← (if mode = "list" then some true else if mode = "seq" then some false else none)
       let ins ← parseBit ins
       let sreq ← parseBit sreq
-      if !(["none", "good", "foreign"].contains ccert) then none
+      if !(clientCertClasses.contains ccert) then none
       if !(["A", "-"].contains cca) || !(["A", "-"].contains sca) then none
       if atts.isEmpty || atts.length > 6 then none
       let as ← atts.mapM (parseAttempt sreq sca)
